@@ -344,6 +344,16 @@ def run(case):
                 if libset == "netcdf":
                     models.append(("dimension file %s" % path, pre + [("W3", "EEMSWrite", [("OutFileName", q("o.nc")), ("OutFieldNames", ("list", [b("A")])),
                                                                                           ("DimensionFileName", q(path)), ("DimensionFieldName", b("A"))])]))
+        # TWO faults in one model: an input file that does not exist AND an output path of the wrong kind elsewhere (both orders, each writer):
+        # whichever is reported, it is reported as an MPilot error
+        for bad_out in (("int", "2020"), ("list", [b("report.txt")]), ("tuple", [("bare", "a", b("b"))]), ("dec", "1.5"), ("list", [])):
+            rd = ("R2", "EEMSRead", [("InFileName", q("missing_input.csv" if libset == "csv" else "missing_input.nc")), ("InFieldName", b("A"))])
+            wargs = [("OutFileName", bad_out), ("OutFieldNames", ("list", [b("A")]))]
+            if libset == "netcdf":
+                wargs += [("DimensionFileName", q("input.nc")), ("DimensionFieldName", b("A"))]
+            for wr in (("W2", "EEMSWrite", wargs), ("P2", "PrintVars", [("InFieldNames", ("list", [b("A")])), ("OutFileName", bad_out)])):
+                models.append(("missing input, then %s with OutFileName %s" % (wr[1], bad_out[0]), pre + [rd, wr]))
+                models.append(("%s with OutFileName %s, then missing input" % (wr[1], bad_out[0]), pre + [wr, rd]))
         texts = [(label, G.render(G.items_of(m))[0]) for label, m in models]
         n, distinct, sample = _run_texts(texts, libset, viols, outcomes, "paths", absdir=True)
     else:
